@@ -105,7 +105,16 @@ def run(ck, F):
                      f'applying an elementary substitution [p -> v] to another parameter q yields `{contracts.render(cases.get("other"), st, {}) if "other" in cases else cases}` '
                      f'(P0 = p, P1 = v, P100 = q), expected q itself', loc=f['loc'], fn=op)
 
+    # ---------------------------------------------------------------- general substitution, whatever holds the bindings
+    latest_binding_rule(ck, F)
+
     # ---------------------------------------------------------------- general substitution
+    if len([fl for fl in F.need_rec('ipr::impl::General_substitution')['fields'] if 'std::map<' in fl['t']]) != 1:
+        # the rules below describe how a std::map is used (overwriting idiom, ordering of the keys); with another representation
+        # they do not apply -- what the substitution answers is judged by C16.latest-binding above, whatever holds the table
+        ck.note('General_substitution does not keep its bindings in one std::map: the map-usage rules (C16.general) do not apply; '
+                'its behaviour is judged by C16.latest-binding')
+        return
     RG = ck.rule('C16.general', 'a general substitution looks the queried parameter up by address, yields the stored expression '
                  'when bound and the parameter itself otherwise; subst overwrites (latest binding wins)', floor=3)
     gop = F.need_fn('ipr::impl::General_substitution::operator[](const ipr::Parameter &) const')
@@ -230,3 +239,180 @@ def run(ck, F):
              f'General_substitution stores its bindings in {[m["t"][:160] for m in mp]}: ' +
              ('the keys are ordered by `' + cmp_t + '`, under which two different parameters can be equivalent (one key): a binding for one is '
               'answered for, and overwritten by, the other' if not by_address else 'not a map from parameter addresses to expressions'), loc=rec['loc'])
+
+
+class AssocSym(Sym):
+    """The evaluator with models of the two standard containers a table of bindings is kept in: std::map (insert_or_assign /
+    find / end over symbolic keys: every identity case is a path) and std::forward_list filled with emplace_front and walked by a
+    range-for (its contents are known when the list was empty at the start of the evaluation)."""
+
+    def intrinsic(self, e, callee, recv, args, st):
+        name, parent = callee.get('name'), callee.get('parent') or ''
+        if callee.get('repo') is False and parent.startswith(('std::map<', 'std::unordered_map<')) and recv is not None:
+            ents = st.contents.setdefault(recv, [])
+            if name in ('insert_or_assign', 'insert', 'emplace', 'try_emplace') and len(args) == 2:
+                k, v = args
+                outs = []
+                cur = st
+                for i, (ki, _vi) in enumerate(ents):
+                    t = self.truth(('op', '==', k, ki), cur)
+                    if t is False:
+                        continue
+                    s2 = cur if t is True else cur.fork()
+                    if t is None:
+                        s2.conds.append((('op', '==', k, ki), True))
+                        cur.conds.append((('op', '==', k, ki), False))
+                    lst = list(s2.contents.get(recv, []))
+                    if name == 'insert_or_assign':
+                        lst[i] = (ki, v)
+                    s2.contents[recv] = lst
+                    outs.append((s2, ('mapit', recv, i)))
+                    if t is True:
+                        return outs
+                cur.contents[recv] = list(cur.contents.get(recv, [])) + [(k, v)]
+                outs.append((cur, ('mapit', recv, len(cur.contents[recv]) - 1)))
+                return outs
+            if name == 'find' and len(args) == 1:
+                k = args[0]
+                outs = []
+                cur = st
+                for i, (ki, _vi) in enumerate(ents):
+                    t = self.truth(('op', '==', k, ki), cur)
+                    if t is False:
+                        continue
+                    s2 = cur if t is True else cur.fork()
+                    if t is None:
+                        s2.conds.append((('op', '==', k, ki), True))
+                        cur.conds.append((('op', '==', k, ki), False))
+                    outs.append((s2, ('mapit', recv, i)))
+                    if t is True:
+                        return outs
+                outs.append((cur, ('mapend', recv)))
+                return outs
+            if name in ('end', 'cend') and not args:
+                return [(st, ('mapend', recv))]
+        if callee.get('repo') is False and name in ('operator==', 'operator!=') and len(args) + (recv is not None) == 2:
+            a, b = ([recv] + list(args)) if recv is not None else args
+            if all(isinstance(x, tuple) and x[:1] in (('mapit',), ('mapend',)) for x in (a, b)):
+                return [(st, ('k', int((a == b) == (name == 'operator==')), 'bool'))]
+        if callee.get('repo') is False and name in ('operator->', 'operator*') and isinstance(recv, tuple) and recv[:1] == ('mapit',):
+            k, v = st.contents[recv[1]][recv[2]]
+            o = st.new_obj('std::pair', origin=('aggregate',))
+            st.heap[o[1]].fields.update({'first': k, 'second': v})
+            return [(st, ('addr', o) if name == 'operator->' else o)]
+        if callee.get('repo') is False and parent.startswith('std::forward_list<') and name == 'emplace_front' and recv is not None:
+            outs = Sym.intrinsic(self, e, callee, recv, args, st)
+            if outs is not None:
+                for s2, o in outs:
+                    if s2.throw is None:
+                        s2.contents[recv] = [o] + [x for x in s2.contents.get(recv, []) if x != o]
+            return outs
+        return Sym.intrinsic(self, e, callee, recv, args, st)
+
+    def exec_search_loop(self, s, st):
+        rng = self.ev(s['range'], st)
+        if len(rng) == 1 and rng[0][1] in rng[0][0].contents and getattr(self, 'known_lists', None) and rng[0][1] in self.known_lists:
+            st1, r = rng[0]
+            states = [(st1, None)]
+            for el in list(st1.contents[r]):
+                nxt = []
+                for s1, sig in states:
+                    if sig is not None or s1.throw is not None:
+                        nxt.append((s1, sig))
+                        continue
+                    s1.env[('v', s['var']['id'])] = el
+                    s1.env[('n', s['var']['name'])] = el
+                    for s2, sig2 in self.exec(s['b'], s1):
+                        nxt.append((s2, 'loop-exit' if sig2 == 'break' else (None if sig2 == 'continue' else sig2)))
+                states = nxt
+            return [(s1, None if sig == 'loop-exit' else sig) for s1, sig in states]
+        return Sym.exec_search_loop(self, s, st)
+
+
+def latest_binding_rule(ck, F):
+    R = ck.rule('C16.latest-binding', 'a general substitution that was empty, then given the bindings a -> x and b -> y (in that order), answers a '
+                'query q with y when q is b, else with x when q is a, else with q itself -- on every path, for every way the five nodes '
+                'may coincide (b may be a: the later binding wins; y may be b itself: an identity binding still hides the earlier one).  '
+                'Evaluated with models of std::map and std::forward_list, so the judgement does not depend on which of them holds the table', floor=3)
+    cls = 'ipr::impl::General_substitution'
+    F.need_rec(cls)
+    sub = [f for f in F.fns_in(cls) if f['name'] == 'subst' and len(f['params']) == 2 and f.get('body')]
+    opq = F.final_overrider(cls, 'ipr::Substitution::operator[](const ipr::Parameter &) const')
+    if len(sub) != 1 or not opq or opq not in F.fn:
+        raise AnalysisBroken('General_substitution::subst / operator[] not found')
+    S = AssocSym(F, opaque=contracts.default_opaque(F), max_depth=32, max_paths=400)
+    st0 = State()
+    g = st0.new_obj(cls)
+    S.known_lists = {('fld', g, fl['name']) for fl in F.rec[cls]['fields']}
+    A, X, B, Y, Q = (('param', i) for i in range(5))
+    try:
+        states = [st0]
+        for p_, v_ in ((A, X), (B, Y)):
+            nxt = []
+            for s1 in states:
+                for s2, k2, _v2 in S.run(sub[0]['id'], this=g, args=[p_, v_], state=s1):
+                    if k2 != 'return':
+                        raise AnalysisBroken(f'{sub[0]["id"]} can throw')
+                    nxt.append(s2)
+            states = nxt
+        finals = []
+        for s1 in states:
+            finals += S.run(opq, this=g, args=[Q], state=s1)
+    except Unsupported as e:
+        raise AnalysisBroken(f'{cls}: the table of bindings is kept in a way the models do not cover: {e}')
+    NAMES = {A: 'a', X: 'x', B: 'b', Y: 'y', Q: 'q'}
+
+    def same(st, u, v):
+        # are the nodes u and v known to be one object on this path?  (True / False / None) -- by the equalities and
+        # inequalities of addresses the path went through, closed under transitivity
+        parent = {}
+
+        def find(x):
+            parent.setdefault(x, x)
+            while parent[x] != x:
+                parent[x] = parent[parent[x]]
+                x = parent[x]
+            return x
+        neq = []
+        for c, val in st.conds:
+            if isinstance(c, tuple) and c[:1] == ('op',) and c[1] in ('==', '!=') and len(c) == 4:
+                x, y = c[2], c[3]
+                x = x[1] if isinstance(x, tuple) and x[:1] == ('addr',) else x
+                y = y[1] if isinstance(y, tuple) and y[:1] == ('addr',) else y
+                if bool(val) == (c[1] == '=='):
+                    parent[find(x)] = find(y)
+                else:
+                    neq.append((x, y))
+        if find(u) == find(v):
+            return True
+        if any({find(x), find(y)} == {find(u), find(v)} for x, y in neq):
+            return False
+        return None
+    buckets = {'q is b': [], 'q is a, not b': [], 'q is neither': []}
+    for st, k, v in finals:
+        r = v
+        while isinstance(r, tuple) and r[:1] in (('deref',), ('addr',)) and isinstance(r[1], tuple) and r[1][:1] in (('addr',), ('deref',), ('param',)):
+            r = r[1]
+        qb, qa = same(st, Q, B), same(st, Q, A)
+        if k != 'return':
+            buckets['q is neither'].append(f'throws {v}')
+            continue
+        when = contracts.render_conds(st.conds, st, {})[:110]
+        if qb is True:
+            want, case = Y, 'q is b'
+        elif qb is False and qa is True:
+            want, case = X, 'q is a, not b'
+        elif qb is False and qa is False:
+            want, case = Q, 'q is neither'
+        else:
+            # the answer was given without settling which binding applies: it must be right whichever way the open question goes
+            cands = ([Y] if qb is not False else []) + ([X] if qa is not False and qb is not True else []) + [Q]
+            ok = all(same(st, r, c) is True for c in cands)
+            buckets['q is neither'].append(None if ok else f'answers `{contracts.render(v, st, {})[:40]}` without having settled whether q is a or b (when {when})')
+            continue
+        ok = same(st, r, want) is True
+        buckets[case].append(None if ok else f'answers {NAMES.get(r, contracts.render(v, st, {})[:40])} where {NAMES[want]} is bound (when {when})')
+    for case, res in buckets.items():
+        bad = sorted({x for x in res if x})
+        ck.check(R, case, bool(res) and not bad, f'General_substitution, after subst(a, x) and subst(b, y), queried with q ({case}): ' +
+                 ('; '.join(bad[:2]) if bad else 'no path reaches this case'), loc=F.fn[opq]['loc'], fn=opq)
